@@ -3,6 +3,15 @@ from lib import mir
 from .rtcommon import (configs, rt, every_return_passes, bool_switches_on_call, discr_switches, variant_target,
                        calls_in, ind_calls)
 
+CLAIM = dict(
+    level="other", engine="mirfacts+witness", design="DESIGN.md §5 C18",
+    technique="MIR dominator / must-pass-through / who-may-write rules + compile_fail witnesses (!Unpin)",
+    text="Static path rules on the runtime crate's MIR: the waitable leaves the set before the cancel built-in on "
+         "every path, delivery removes it from sets and map before the single callback, register/unregister always "
+         "update both set and map, only three functions mutate the map, Drop of an unfinished operation always "
+         "cancels, moving between tasks never registers before leaving. Partial: schedules are not explored.",
+    note="mir")
+
 MUT_MAP = ["BTreeMap::insert", "BTreeMap::remove", "BTreeMap::clear", "BTreeMap::retain", "BTreeMap::entry",
            "BTreeMap::append", "BTreeMap::pop_first", "BTreeMap::pop_last", "BTreeMap::get_mut",
            "BTreeMap::iter_mut", "BTreeMap::values_mut", "BTreeMap::remove_entry", "BTreeMap::split_off",
